@@ -196,6 +196,9 @@ func (r *Run) report(st *State, v Violation) {
 // assertProp checks a property assertion on the current path.
 func (st *State) assertProp(c *Term, label string) {
 	r := st.run
+	if len(st.pinned) > 0 && c.Op != OConst {
+		c = Subst(c, st.pinned, map[*Term]*Term{})
+	}
 	if c.Op == OConst {
 		if c.K != 0 {
 			r.obl.Add(1)
